@@ -91,7 +91,7 @@ def interp_surface(m, run):
         raise AnalysisError('interpolate_surface: only %d index reads resolved' % n)
     if len(it.built) != 1:
         raise AnalysisError('interpolate_surface: constructed surface not found')
-    ld.final_object(run, fi, it, [k for k, v in it.env.items() if v is it.built[0]][0], 'fit', None)
+    ld.final_object(run, fi, it, it.built[0], 'fit', None)
 
 
 def params_surface(m, run):
@@ -143,7 +143,19 @@ def approx(m, run):
             key = '%s :: %s = %s' % (fs.key, norm(t)[:45], norm(n.value)[:45])
             tsizes = [a for a in pt.atoms() if 'size' in a or 'num_cpts' in a]
             # both are  a + R*b  forms: compare by evaluating at the two "end" patterns
-            ok = end_pair(pt, ps_)
+            rowlen = set()
+            for arr in (t.value, s.value):
+                if isinstance(arr, ast.Name):
+                    if arr.id == pts:
+                        rowlen.add('size_v')
+                    for a_ in walk_no_nested(fs.node):
+                        if isinstance(a_, ast.Assign) and isinstance(a_.targets[0], ast.Name) and a_.targets[0].id == arr.id and isinstance(a_.value, ast.ListComp):
+                            ext = a_.value.generators[0].iter.args[-1]
+                            if isinstance(ext, ast.BinOp) and isinstance(ext.op, ast.Mult):
+                                for side in (ext.left, ext.right):
+                                    if sc.int_tags(side, a_) == {1}:
+                                        rowlen.add(norm(side))
+            ok = end_pair(pt, ps_, rowlen)
             run.ob('END2.end-rows-copied', key, ok, 'end row/column of the control net is a copy of the corresponding end row/column of the data' if ok else
                    'target cell %s is filled from source cell %s: the first (last) control row must be the first (last) data row' % (pt, ps_), site(fs, n))
     if ends < 4:
@@ -185,10 +197,7 @@ def approx(m, run):
     run.floor('END2.interior-only', 3, 'two surface passes + curve')
 
 
-ROWLEN = ('size_v', 'num_cpts_v')
-
-
-def end_pair(pt, ps):
+def end_pair(pt, ps, ROWLEN=('size_v', 'num_cpts_v')):
     """target index ft + Rt*st and source index fs + Rs*ss (R = row length of the array): the fast parts are the same column
     (same variable, both 0, or both `row length - 1`) and the slow parts the same row (same variable, both 0, or both `count - 1`)"""
     def split(p):
@@ -211,7 +220,7 @@ def end_pair(pt, ps):
             if x == Poly():
                 return 'first'
             at = list(x.atoms())
-            if len(at) == 1 and x == Poly.atom(at[0]) - 1 and ('size' in at[0] or 'num_cpts' in at[0]):
+            if len(at) == 1 and x == Poly.atom(at[0]) - 1:
                 return 'last'
         return repr(x)
     a, b = split(pt), split(ps)
